@@ -138,6 +138,18 @@ func runConnUDP(t *testing.T, c caseDef) []string {
 			factory = cfg.CreateInactivityMonitor
 		}})
 		main = cc
+		if c.level == "udpreq" {
+			// the application has a confirmable request outstanding that the (dead) peer never acknowledges: it holds the
+			// only NSTART slot for as long as it is retransmitted.  The monitor must work all the same.
+			rctx, rcancel := context.WithTimeout(context.Background(), time.Hour)
+			defer rcancel()
+			go func() {
+				if r, err := cc.Get(rctx, "/never-answered"); err == nil {
+					cc.ReleaseMessage(r)
+				}
+			}()
+			synctest.Wait()
+		}
 		shadow, _ := mem.NewUDPConn(mem.UDPOpts{Mutate: func(cfg *udpclient.Config) { cfg.CreateInactivityMonitor = factory }})
 		defer func() { _ = shadow.Close() }()
 		pl := &pingLog{mids: map[int]int32{}}
@@ -432,7 +444,7 @@ func TestC18(t *testing.T) {
 			for i := range res {
 				res[i] = "unit-level cases run in harness/c18unit"
 			}
-		case "udp", "udpnc":
+		case "udp", "udpnc", "udpreq":
 			lp.PoolTraceBegin()
 			res = runConnUDP(t, *cur)
 			lp.PoolTraceEnd(fmt.Sprintf("c18 udp %d-ops", len(cur.ops)))
